@@ -60,7 +60,22 @@ CaseTags(ev) ==
     ELSE UNION { IF P.vals[P.def][k].k = "group" THEN {} ELSE KeyTags(P, a.names, ev.load.units[1].keys, k)
                  : k \in DOMAIN P.vals[P.def] }
 
+\* L2 (C08): compile / no-compile of accessor calls.  ev.args: the argument names the call passed;
+\* kind "exact": must compile;  "omit": one member left out, must NOT compile;  "unknown": a key that does not exist, must NOT compile
+CompileTags(ev) ==
+    LET P == Cases[ev.case].abs.P
+        owners == { x \in Range(P.locs) : Own(P, x, "k") }
+        res == [x \in owners |-> Resolved(P, x, "k").v]
+        sig == UNION { VarsIn(res[x]) : x \in owners } \cup { c[1] : c \in UNION { CountsIn(res[x]) : x \in owners } }
+               \cup UNION { CompsIn(res[x]) : x \in owners } IN
+    CASE ev.kind = "exact" -> (IF Range(ev.args) # sig THEN {"harness-args-differ-from-signature"} ELSE {})
+                              \cup (IF ev.got = "ok" THEN {} ELSE {"exact-argument-set-does-not-compile"})
+      [] ev.kind = "omit" -> (IF ev.omitted \in sig /\ Range(ev.args) = sig \ {ev.omitted} THEN {} ELSE {"harness-args-differ-from-signature"})
+                             \cup (IF ev.got = "fail" THEN {} ELSE {"compiles-without:" \o ev.omitted})
+      [] OTHER -> (IF ev.got = "fail" THEN {} ELSE {"unknown-key-compiles"})
+
 Tags(ev) == IF ev.ev = "Load" THEN CaseTags(ev)
+            ELSE IF ev.ev = "Compile" THEN CompileTags(ev)
             ELSE IF ev.ev = "Crash" THEN {"crash:" \o ev.outcome}
             ELSE {}
 
